@@ -5,7 +5,8 @@ RULE = ("each case = one synthetic in-memory dataset (1-3 instruments, 1-12 / 13
         "parameterisations (passive, or a plan of 1-4 market orders triggered by the count of market events: first event, last event, colliding triggers, "
         "quantities beyond the balance) and 2-4 `run n w` ops: n in {1,2,8,32} backtests through the real barter::backtest::run_backtests / backtest on a tokio "
         "runtime with w in {0 = current-thread,1,4,8} workers, then every backtest again alone; a recording GlobalData + InstrumentDataState capture what each engine saw. "
-        "A case is distinct by the SHA-1 of its op lines and non-trivial when the observation blocks differ")
+        "The committed corpus (corpus/C20/fills_lost.ops) runs first; its 4000-event case makes the known finding show on practically every run "
+        "(alone on a current-thread runtime is always flat, 2 backtests on 4 workers see the first order's fill). A case is distinct by the SHA-1 of its op lines and non-trivial when the observation blocks differ")
 ASSUMPTIONS = [
     "MarketDataInMemory datasets holding MarketStreamEvent::Item trades only (no Reconnecting items), one mock exchange, zero fees, latency_ms = 0",
     "trading enabled from the start and never disabled; no Command / TradingStateUpdate is sent during a backtest",
